@@ -226,6 +226,12 @@ structure Skeleton where
   stateBroadcaster           : List String
   stateChannel               : List String
   stateWrappedChild          : List String
+  stateGlobals               : List String   -- package-level variables of rpc and utils other than error values and reflect.Type constants (mutable global state: none)
+  /- ---------------- added after round 4 ---------------- -/
+  clNilErrorViaIsNil         : Bool  -- createClosure's wrapper turns the closure's last result into an `error` only under `!out[i].IsNil()` (a nil pointer of a concrete error type stays "no error")
+  msgCodecPlain              : Bool  -- utils.Request/Response Marshal/Unmarshal hand the struct itself to the codec and do nothing else
+  linkReturnsOnlyFatalSlot   : Bool  -- the variable Link returns is assigned from the fatal slot only
+  ucNoWaiting                : Bool  -- utils.Call contains nothing that can wait (no channel operation, lock, Once, goroutine)
   /- ---------------- C20 ---------------- -/
   accesses                   : List Access
   locksShared                : Bool  -- every mutex guarding shared state is one object for all users: a pointer field, or a value field of a struct only ever used through a pointer (methods with pointer receivers)
